@@ -86,6 +86,7 @@ func (j *jobs) GarbageCollect() {
 func (j *jobs) Get(jobId int) (*Process, error) {
 	j.mutex.Lock()
 	defer j.mutex.Unlock()
+	verifhook.Emit(j, "jobs.lookup.start", "")
 
 	if jobId < 1 {
 		return nil, fmt.Errorf("invalid job ID '%d': job ID cannot be less than 1", jobId)
@@ -108,6 +109,7 @@ func (j *jobs) Get(jobId int) (*Process, error) {
 func (j *jobs) GetLatest() (*Process, error) {
 	j.mutex.Lock()
 	defer j.mutex.Unlock()
+	verifhook.Emit(j, "jobs.lookup.start", "")
 
 	for i := len(j.jobs) - 1; i >= 0; i-- {
 		if j._hasTerminated(i) {
